@@ -21,7 +21,7 @@ for l in open(sys.argv[1]):
 byfile=collections.defaultdict(list)
 for loc,c in cov.items():
     f,r=loc.split(':')
-    if c==0 and '/testscommon' not in f: byfile[f].append(r)
+    if c==0 and '/testscommon' not in f and f.startswith('github.com/multiversx/mx-chain-storage-go/'): byfile[f].append(r)
 for f in sorted(byfile):
     print(f)
     for r in sorted(byfile[f], key=lambda r:[int(x) for x in r.replace(',','.').split('.')]): print('   ',r)
